@@ -86,3 +86,22 @@ claim("C17", ENGINE_A + "; A-SIB comparison of the two emitted methods",
       "from the first pass into the second is visible. Equal skeletons imply equal rule sets and equal default handling; scalar-typing differences of the decoders themselves are not decided.",
       "same as C19",
       "DESIGN.md §2 C17")
+
+claim("C04", ENGINE_A + "; A-REQ presence-check oracle",
+      "Decides, for objects with every subset of required properties (x default x nullable), required properties of every non-pointer kind, objects inside arrays (depth 1-2), behind a definition "
+      "reference, anyOf branch types, objects with additionalProperties of every kind, and a required name without a property, that each emitted Unmarshal method tests the raw map for exactly "
+      "the raw name of every required non-defaulted property before the typed decode (guarded by raw != nil) and for no other key. All names symbolic. One known finding (required name without "
+      "a property). allOf-merged required lists are not part of this check.",
+      "as C06", "DESIGN.md §2 C04")
+claim("C07", ENGINE_A + "; per-depth atoms for array limits",
+      "Decides, for arrays of depth 1..3 with a distinct symbolic limit per keyword per depth, in required/optional/nullable positions, that the check of the depth-d array compares len of the "
+      "value indexed by exactly the d-1 enclosing loop variables with the depth-d limit, exists whenever depth d states a limit and never otherwise. The known defect (outer limits used at every "
+      "depth, pinned by a golden) is listed as known findings per manifestation; a second defect (limits dropped for arrays of null items) was found and fixed. Element validation by inline "
+      "primitive item schemas is not decided.",
+      "as C06", "DESIGN.md §2 C07")
+claim("C03", ENGINE_A + "; A-MAP type-mapping oracle and null-type branches",
+      "Decides, for every schema type/format in six positions, with and without --min-sized-ints (all regions of the bounds relative to the width limits explored as worlds), that the emitted Go "
+      "field/declared type is the one the oracle table demands (so encoding/json's type check is the schema's) with a pointer exactly where null or absence must be representable, and that "
+      "`type: null` positions (alone, as array items to depth 3, next to length limits) get their `!= nil` branch. Two known findings (format types behind references lose their decoder; "
+      "array-of-objects definitions get an anonymous element struct). The behaviour of encoding/json, yaml.v3 and mapstructure on mismatched values is trusted.",
+      "as C06", "DESIGN.md §2 C03")
